@@ -115,7 +115,10 @@ impl ClaimData {
                 Ok(Self::Number(n))
             }
             ClaimType::Scalar => {
-                let s = Scalar::from_be_bytes(&<[u8; 32]>::try_from(data).unwrap());
+                let bytes = <[u8; 32]>::try_from(data).map_err(|_| {
+                    Error::InvalidClaimData("scalar claim must be 32 bytes")
+                })?;
+                let s = Scalar::from_be_bytes(&bytes);
                 if s.is_none().unwrap_u8() == 1 {
                     return Err(Error::InvalidClaimData(
                         "scalar claim could not be deserialized",
@@ -190,9 +193,14 @@ impl ClaimData {
 
     /// Convert text to [`ClaimData`]
     pub fn from_text(s: &str) -> CredxResult<Self> {
-        match &s[0..4] {
+        // the prefix is four bytes; a shorter string, or one cut inside a multi-byte character, has none
+        let (prefix, rest) = match (s.get(0..4), s.get(4..)) {
+            (Some(prefix), Some(rest)) => (prefix, rest),
+            _ => return Err(Error::InvalidClaimData("unknown claim type")),
+        };
+        match prefix {
             HASHED_HEX => {
-                let value = hex::decode(&s[4..]).map_err(|_| {
+                let value = hex::decode(rest).map_err(|_| {
                     Error::InvalidClaimData("unable to decode hashed claim hex string")
                 })?;
                 Ok(ClaimData::Hashed(HashedClaim {
@@ -201,30 +209,36 @@ impl ClaimData {
                 }))
             }
             HASHED_UTF8 => {
-                let value = s[4..].to_string();
+                let value = rest.to_string();
                 Ok(ClaimData::Hashed(HashedClaim {
                     value: value.into_bytes(),
                     print_friendly: true,
                 }))
             }
             NUMBER => {
-                let value = s[4..]
+                let value = rest
                     .parse::<isize>()
                     .map_err(|_| Error::InvalidClaimData("unable to deserialize number claim"))?;
                 Ok(ClaimData::Number(NumberClaim { value }))
             }
             SCALAR => {
-                let value = Option::<Scalar>::from(Scalar::from_be_hex(&s[4..])).ok_or({
+                // Scalar::from_be_hex reads 64 hex digits and panics on anything else
+                if rest.len() < 64 || !rest.as_bytes()[..64].iter().all(u8::is_ascii_hexdigit) {
+                    return Err(Error::InvalidClaimData(
+                        "unable to deserialize scalar claim hex string",
+                    ));
+                }
+                let value = Option::<Scalar>::from(Scalar::from_be_hex(rest)).ok_or({
                     Error::InvalidClaimData("unable to deserialize scalar claim hex string")
                 })?;
                 Ok(ClaimData::Scalar(ScalarClaim { value }))
             }
             REVOCATION => {
-                let value = s[4..].to_string();
+                let value = rest.to_string();
                 Ok(ClaimData::Revocation(RevocationClaim { value }))
             }
             ENUMERATION => {
-                let value = hex::decode(&s[4..]).map_err(|_| {
+                let value = hex::decode(rest).map_err(|_| {
                     Error::InvalidClaimData("unable to decode enumeration claim hex string")
                 })?;
                 let e =
